@@ -22,7 +22,9 @@
 //!     at an error item — until the first `None`: number of items, their classes run-length encoded (`o2e1` = two Ok
 //!     items, then one Err; `-` = none), fnv over (path 00 content 01 | 02 for an Err) of all of them;
 //!     `all=runaway` when more than (header files + 16) items came out;
-//!     `err-build`, `err-write`, `err-parse`, `err-files` when an earlier step failed.
+//!     `err-build`, `err-write`, `err-parse`, `err-files` when an earlier step failed;
+//!     `mem-differs <observation>`: `files` iterates BOTH the un-reparsed `Package` value `build()` returned and its written and
+//!     re-parsed form; this is the answer (with what the in-memory value gave) when the two observations are not the same.
 use crate::common::*;
 use crate::pkggen::*;
 use sha2::Digest;
@@ -283,12 +285,18 @@ fn files_op(a: &[&str]) -> Option<String> {
     if pkg.write(&mut bytes).is_err() {
         return Some("err-write".into());
     }
+    // the UN-REPARSED value `build()` returned is iterated as well: it must hand out what its written and re-parsed form does
+    let mem = observe(&pkg, is_none);
     drop(pkg);
     let pkg = match rpm::Package::parse(&mut &bytes[..]) {
         Ok(p) => p,
         Err(_) => return Some("err-parse".into()),
     };
-    Some(observe(&pkg, is_none))
+    let re = observe(&pkg, is_none);
+    if mem != re {
+        return Some(format!("mem-differs {}", mem));
+    }
+    Some(re)
 }
 
 fn filesraw_op(bytes: &[u8]) -> String {
